@@ -222,8 +222,26 @@ def run_lin(case):
                                 mech="linearity-adjoint", obs={"rel": e})
         if not (np.array_equal(x, x0) and np.array_equal(y, y0)):
             return violated(sig, "input array modified by application", wit, mech="mutated")
+        # the array an application returns belongs to the caller: overwriting it must not
+        # change what the operator does afterwards (no internal buffer / captured parameter
+        # handed out); and a rejected application (wrong rank) must leave nothing behind
+        for bad_ in (tuple(ish) + (2,), tuple(ish)[:-1], tuple(ish)[1:]):
+            try:
+                A(np.ones(bad_, cdt))
+            except Exception:
+                pass
+        osh_ = tuple(A.oshape)
+        for bad_ in (osh_ + (2,), osh_[:-1], osh_[1:]):
+            try:
+                A.H(np.ones(bad_, cdt))
+            except Exception:
+                pass
+        r_ = A(x)
+        if isinstance(r_, np.ndarray) and r_.flags.writeable and not np.shares_memory(r_, x) \
+                and r_ is not Ax:
+            r_[...] = np.nan
         # determinism over histories
-        outs = [Ax, np.asarray(A(x.copy()))]
+        outs = [Ax.copy() if np.all(np.isfinite(Ax)) else Ax, np.asarray(A(x.copy()))]
         H = A.H
         N = A.N
         outs.append(np.asarray(A(x)))
@@ -457,7 +475,59 @@ def run_func(case):
             return violated(sig, "%s modified its argument %s" % (fn, path),
                             {"fn": fn, "fseed": case["fseed"], "arg": path},
                             mech="func-mutates:" + fn)
-    return held(sig, {"arrays_checked": len(snaps)}, len(snaps), len(snaps) > 0)
+    checks = len(snaps)
+    if fn not in ("monte_carlo_sure",) and not exclude:
+        # (a) histories that start with a failure: the same function is first called with
+        # arguments it must reject (no array at all; a second array operand whose shape does
+        # not fit), then with the valid arguments - whatever the failed calls left behind
+        # must not change the valid result;  (b) the returned array is the caller's: filling
+        # it with garbage must not change what the next identical call returns (no internal
+        # buffer, cached output or captured parameter handed out)
+        def arrays(o):
+            if isinstance(o, np.ndarray):
+                return [o]
+            if isinstance(o, (list, tuple)):
+                return [a_ for v in o for a_ in arrays(v)]
+            return []
+        try:
+            r1 = f(*args, **kwargs)
+        except Exception:
+            r1 = None
+        keep = [a_.copy() for a_ in arrays(r1)]
+        if keep:
+            ia = [i for i, a_ in enumerate(args) if isinstance(a_, np.ndarray)]
+            for bad in ([None if i == ia[0] else a_ for i, a_ in enumerate(args)] if ia else None,
+                        [a_[..., :-1] if (len(ia) > 1 and i == ia[1] and a_.ndim
+                                          and a_.shape[-1] > 1) else a_
+                         for i, a_ in enumerate(args)] if len(ia) > 1 else None):
+                if bad is None:
+                    continue
+                try:
+                    f(*bad, **kwargs)
+                except Exception:
+                    pass
+            ins = [a_ for a_ in arrays([list(args), list(kwargs.values())])]
+            for a_ in arrays(r1):
+                if a_.flags.writeable and not any(np.shares_memory(a_, b_) for b_ in ins):
+                    a_[...] = 7 if a_.dtype.kind in "iub" else np.nan
+            try:
+                r2 = f(*args, **kwargs)
+            except Exception as e:
+                inn = _innermost(e)
+                return violated(sig, "%s raised %s on valid arguments after rejected calls / "
+                                "after its earlier result was overwritten: %s" % (
+                                    fn, type(inn).__name__, str(inn)[:150]),
+                                {"fn": fn, "fseed": case["fseed"]}, mech="func-history:" + fn)
+            got = arrays(r2)
+            checks += 1
+            if len(got) != len(keep) or not all(
+                    g_.shape == k_.shape and np.array_equal(g_, k_, equal_nan=True)
+                    for g_, k_ in zip(got, keep)):
+                return violated(sig, "%s returns something else for identical arguments after "
+                                "rejected calls and after the caller overwrote the array it "
+                                "got from the first call" % fn,
+                                {"fn": fn, "fseed": case["fseed"]}, mech="func-history:" + fn)
+    return held(sig, {"arrays_checked": len(snaps)}, checks, len(snaps) > 0)
 
 
 # ------------------------------------------------------------------- prox --
